@@ -150,6 +150,8 @@ func c12(r *Run) {
 	}
 
 	errMappingRules(r, "C12.R2")
+	// after the peer closed the buffered bytes stay readable: the closed answers are given only when the bytes are not there
+	r.borrow([]string{"C07.R5:closed-only-when-short"}, "C07.R5", "C12.R2", func() { c07(r) })
 	// a call parked when the connection closes is released (never blocks): the close wake-ups
 	closeWakeRules(r, "C12.R2")
 	// a recycled buffer reports length 0 (so every later sized read goes to the closed-state answer instead of
